@@ -40,6 +40,24 @@ CHECKS['C05'] = ('model_checking',
   'First version: init only, three bodies; filters, histories and control-flow transforms are '
   'added in later revisions.', '§4 C05')
 
+CHECKS['C14'] = ('exploration',
+  'bounded-exhaustive enumeration of filter terms (small-scope, complete by name symmetry) '
+  'against set semantics',
+  'Linen: every filter term up to nesting depth 2 (quick) / 3 (thorough) over nine atoms closed '
+  'under DenyList, every ordered pair under union/intersect/subtract, each result composed once '
+  'more with every atom on both sides; membership is compared with or/and/and-not for every name '
+  'of a universe that is complete by symmetry (a, b, c are the only names a term mentions, zz '
+  'stands for all others), is_filter_empty with emptiness over that universe, filter_to_set, and '
+  'group_collections with the first-match partition for every list of <= 3 terms and every subset '
+  'of collections. NNX: every filter term up to depth 1 / 2 over type, tag, path, Any/All/Not, '
+  '..., True/False/None, list/tuple against a set-semantics evaluator on 36 (path, Variable) '
+  'items in both Variable and VariableState form; every tuple of <= 3 filters through '
+  'split_state, State.split, filter_state, nnx.state and nnx.split on a module family must be '
+  'the first-match partition, with the documented ValueErrors for `...` not last and for '
+  'non-exhaustive splits.',
+  'Terms deeper than the bound and names outside the symmetry argument are not enumerated; '
+  'callable user predicates are not covered.', '§4 C14')
+
 NOT_APPLICABLE = {}
 
 
